@@ -39,12 +39,15 @@ ORDERED = set(['decimal', 'float', 'double', 'duration']) | set(D.RE_DT) | set(D
 # ------------------------------------------------------------------------------------------------
 # known findings (genuine defects of the unchanged tree, excluded by construction)
 # ------------------------------------------------------------------------------------------------
-def known_class(tn, proc):
+def known_class(tn, proc, lane='builtin'):
     """finding id if (type, whitespace-processed literal) belongs to the input class of a known finding"""
     root = tn
+    if lane == 'builtin' and root in ('dateTime', 'date') and re.match(r'-[0-9]{4,}-', proc): return 'C09-negative-year-canonical'
+    if lane == 'builtin' and root in ('float', 'double') and proc in ('INF', '-INF', 'NaN'): return 'C09-xsvalue-special-literals' 
     if D.PRIM.get(root) == 'decimal' and re.match(r'[+-]?\.\Z', proc): return 'C09-decimal-lone-point'
     if D.PRIM.get(root) == 'decimal' and root != 'decimal' and re.match(r'[+-]?[0-9]*\.[0-9]*\Z', proc) and not D.RE_DECIMAL.match(proc) : return 'C09-decimal-lone-point'
-    if root == 'dateTime' and re.search(r'T24:00:00(\.0+)?(Z|[+-][0-9:]*)?\Z', proc): return 'C09-datetime-hour24-canonical'
+    if root == 'hexBinary' and any(ord(c) >= 0xFF for c in proc): return 'C09-hexbin-decode-oob'
+    if lane == 'builtin' and root == 'dateTime' and re.search(r'T24:00:00(\.0+)?(Z|[+-][0-9:]*)?\Z', proc): return 'C09-datetime-hour24-canonical'
     return None
 
 def case_known(case):
@@ -182,7 +185,9 @@ def check_actual(tn, val, proc, a_status, a_val):
         return None if a_val == 'x:' + v.hex().upper() else 'binary actual value %s != %s' % (a_val, v.hex().upper())
     return None
 
-def check_canonical(tn, val, proc, can, who):
+DTV_CANON = set(['decimal', 'float', 'double', 'boolean', 'dateTime', 'time', 'date']) | set(D.INT_RANGES)   # validators overriding getCanonicalRepresentation
+
+def check_canonical(tn, val, proc, can, who, note=None, exact=True):
     """invariants of a canonical literal returned for a model-valid literal -> problem or None ('valid', 'same value', model string)"""
     ok, cv = D.verdict(tn, can)
     if ok is None: return None
@@ -198,10 +203,15 @@ def check_canonical(tn, val, proc, can, who):
         same = True
     if not same: return '%s canonical form %r of %r denotes another value (%r vs %r)' % (who, can, proc, cv.v, val.v)
     try:
-        mc = D.canonical(tn, val.v, proc)
+        mc = D.canonical(tn, val.v, proc) if exact else None
     except D.Unsure:
         mc = None
-    if mc is not None and mc != can: return '%s canonical form %r of %r differs from the specified canonical form %r' % (who, can, proc, mc)
+    if mc is not None and mc != can:
+        if who == 'DatatypeValidator' and tn not in DTV_CANON and can == proc:
+            # known finding: the base-class implementation returns the input unchanged (hexBinary, base64Binary)
+            if note is not None: note.excluded['C09-dtv-canonical-identity'] = note.excluded.get('C09-dtv-canonical-identity', 0) + 1
+            return None
+        return '%s canonical form %r of %r differs from the specified canonical form %r' % (who, can, proc, mc)
     return None
 
 def check_builtin(case, ex, note):
@@ -221,7 +231,7 @@ def check_builtin(case, ex, note):
     items = []
     for raw, proc, ok, info, lab in rows:
         xin = proc if isstr else raw
-        alen = len(info.v) if (ok and tn == 'base64Binary') else -1
+        alen = len(info.v) if (ok and tn in ('base64Binary', 'hexBinary')) else -1
         items.append('%s\t%s\t%d' % (tn, xv.esc(xin), alen))
     xs = [l for l in ex.request({'kind': 'xsv', 'items': '\n'.join(items)}).split('\n') if l]
     if len(xs) != len(rows): return False, 'xsv answered %d lines for %d items: %r' % (len(xs), len(rows), xs[:3])
@@ -249,7 +259,11 @@ def check_builtin(case, ex, note):
         h = xv.sha(['builtin', tn, raw])
         lab2 = list(lab) + ['type:' + tn, 'model:' + {True: 'valid', False: 'invalid', None: 'unsure'}[ok]]
         where = '%s literal %r (processed %r)' % (tn, raw, proc)
+        blank = proc.strip(' \t\n\r') == ''
+        clamped = ok is True and D.PRIM[tn] in ('float', 'double') and info.v.clamped
         # (iv) pure differential
+        if ok is None and info == 'signed-zero-in-sign-restricted-integer' and not case.get('noexclude'):
+            note.excluded['C09-xsvalue-negative-zero'] = note.excluded.get('C09-xsvalue-negative-zero', 0) + 1; continue
         if d_ok != xv_ok: return False, 'entry points disagree on %s: XSValue::validate=%s DatatypeValidator::validate=%s  [model: %s %s]' % (where, xv_ok, d_ok, ok, info if ok is not True else '')
         if pv is not None and pv[i] != d_ok:
             return False, 'entry points disagree on %s: in-parse(%s, %s)=%s DatatypeValidator::validate=%s  [model: %s]' % (where, 'element' if i % 2 == 0 else 'attribute', case.get('scanner'), pv[i], d_ok, ok)
@@ -267,25 +281,25 @@ def check_builtin(case, ex, note):
             continue
         # (iii) canonical forms
         if tn in XSV_CANON:
-            if proc == '':
-                pass
+            if blank:
+                if c_status != 'NoContent' or c_val != '\\N': return False, 'XSValue canonical of blank content for %s: %s:%s' % (tn, c_status, c_val)
             elif c_status != 'Init' or c_val == '\\N': return False, 'XSValue::getCanonicalRepresentation(%s) failed with %s' % (where, c_status)
             else:
                 can = xv.unesc(c_val)
-                p = check_canonical(tn, info, proc, can, 'XSValue')
+                p = check_canonical(tn, info, proc, can, 'XSValue', note, exact=not clamped)
                 if p: return False, p
-                second.append((i, 'x', can))
+                if not clamped: second.append((i, 'x', can))
         else:
-            if proc != '' and (c_val != '\\N' or c_status != 'NoCanRep'): return False, 'XSValue canonical for %s: expected NoCanRep, got %s:%s' % (where, c_status, c_val)
+            if not blank and (c_val != '\\N' or c_status != 'NoCanRep'): return False, 'XSValue canonical for %s: expected NoCanRep, got %s:%s' % (where, c_status, c_val)
         if d_can.startswith('can\t') and d_can != 'can\t\\N':
             can = xv.unesc(d_can[4:])
-            p = check_canonical(tn, info, proc, can, 'DatatypeValidator')
+            p = None if clamped else check_canonical(tn, info, proc, can, 'DatatypeValidator', note)
             if p: return False, p
-            second.append((i, 'd', can))
+            if not clamped: second.append((i, 'd', can))
         elif d_can.startswith('exc'):
             return False, 'DatatypeValidator::getCanonicalRepresentation(%s) threw: %s' % (where, d_can)
         # (iv') actual value
-        if proc != '':
+        if not blank:
             p = check_actual(tn, info, proc, a_status, a_val)
             if p: return False, 'XSValue::getActualValue(%s): %s' % (where, p)
     # idempotence
@@ -313,7 +327,7 @@ def check_order(case, ex, note):
     for tr in case['triples']:
         vals = []
         for l in tr:
-            if not case.get('noexclude') and known_class(tn, l): vals = None; break
+            if not case.get('noexclude') and known_class(tn, l, 'order'): vals = None; break
             ok, info = D.verdict(tn, l)
             if ok is not True: vals = None; break
             vals.append(info)
@@ -340,7 +354,10 @@ def check_order(case, ex, note):
                 note.unsure[u.cls] = note.unsure.get(u.cls, 0) + 1; labs.append('model:unsure'); continue
             r = res[(i, j)]
             where = 'compare(%r, %r) on %s' % (tr[i], tr[j], tn)
-            if m == D.EQ and tr[i] != tr[j]: eqdiff = True
+            if m == D.EQ and tr[i] != tr[j]:
+                eqdiff = True
+                if kind in ('hexBinary', 'base64Binary') and not case.get('noexclude'):
+                    note.excluded['C09-binary-compare-lexical'] = note.excluded.get('C09-binary-compare-lexical', 0) + 1; continue
             if m in (D.LT, D.EQ, D.GT):
                 if tn in ORDERED:
                     if r != m: return False, '%s = %d, model order says %d' % (where, r, m)
@@ -367,6 +384,14 @@ def check_order(case, ex, note):
 def safe_pattern_match(p, s):
     return re.fullmatch(p.replace('\\d', '[0-9]'), s) is not None
 
+def binary_enum_value_only(types, target, proc):
+    """a hexBinary/base64Binary enumeration is involved and no token of the literal is lexically identical to an enumeration literal"""
+    for t in types:
+        if isinstance(t, D.Restr) and t.enums and D.PRIM.get(D.root_builtin(t)) in ('hexBinary', 'base64Binary'):
+            toks = proc.split(' ') if D.variety(target) == 'list' else [proc]
+            if any(tok not in t.enums for tok in toks): return True
+    return False
+
 def check_derived(case, ex, note):
     types, env = types_from_json(case['types'])
     target = env[case['target']]
@@ -380,7 +405,7 @@ def check_derived(case, ex, note):
             kid = None
             for piece in (proc.split(' ') if D.variety(target) != 'atomic' else [proc]):
                 for bt in case.get('builtins', []):
-                    kid = kid or known_class(bt, piece)
+                    kid = kid or known_class(bt, piece, 'derived')
             if kid:
                 note.excluded[kid] = note.excluded.get(kid, 0) + 1; continue
         ok, info = D.verdict(target, raw, safe_pattern_match)
@@ -417,6 +442,8 @@ def check_derived(case, ex, note):
         if ok is None:
             note.unsure[info] = note.unsure.get(info, 0) + 1; note.note(h, False, lab2); continue
         note.note(h, nontrivial(lab), lab2)
+        if d_ok != ok and ok and not case.get('noexclude') and binary_enum_value_only(types, target, proc):
+            note.excluded['C09-binary-compare-lexical'] = note.excluded.get('C09-binary-compare-lexical', 0) + 1; continue
         if d_ok != ok:
             return False, 'DatatypeValidator::validate(%r) (raw %r) = %s on %s but the model says %s (%s)' % (proc, raw, d_ok, tdesc, ok, info if ok is False else 'valid')
     return True, 'ok'
@@ -446,7 +473,7 @@ ORDER_TYPES = ['decimal', 'integer', 'long', 'int', 'unsignedByte', 'nonNegative
                'base64Binary', 'gYearMonth', 'gYear', 'gMonthDay', 'gDay', 'gMonth', 'duration', 'string', 'token']
 
 def valid_literal(tn, tries=6):
-    base = D.gen_literal(tn).map(lambda ll: ll[0]).filter(lambda l: D.verdict(tn, l)[0] is True and D.ws_process(l, D.ws_of(tn)) == l and not known_class(tn, l))
+    base = D.gen_literal(tn).map(lambda ll: ll[0]).filter(lambda l: D.verdict(tn, l)[0] is True and D.ws_process(l, D.ws_of(tn)) == l and not known_class(tn, l, 'order'))
     return base
 
 @st.composite
@@ -479,7 +506,7 @@ def derived_case(draw, nlits):
     pool = [(p, ['bd:facet-pivot']), (pv, ['bd:facet-pivot-variant']), (q, ['plain'])]
     val = D.verdict(bt, p)[1]
     facets = {}; enums = []
-    fam_choices = ['enum', 'pattern']
+    fam_choices = ['enum', 'pattern'] if bt != 'boolean' else ['pattern']     # enumeration is not a facet of boolean
     if bt in ORDERED: fam_choices += ['bounds', 'bounds', 'bounds']
     if kind == 'decimal': fam_choices += ['digits', 'digits']
     if kind in ('string', 'hexBinary', 'base64Binary'): fam_choices += ['length', 'length']
